@@ -27,4 +27,4 @@ Definition zeros (n : nat) : bytes := repeat 0 n.
 Definition all_zero (l : bytes) : bool := forallb (Z.eqb 0) l.
 
 (* number of bytes needed to hold v >= 0 (0 for 0) *)
-Definition byte_len (v : Z) : Z := (Z.log2 v + 8) / 8.
+Definition byte_len (v : Z) : Z := if v <=? 0 then 0 else (Z.log2 v + 8) / 8.
